@@ -221,7 +221,9 @@ def require_ok(r, what):
 
 GOENV = {"GOTOOLCHAIN": "local", "GOFLAGS": "-mod=mod", "GOPROXY": "off"}
 # harness/<dir> -> /repo/internal/<path> when they differ
-PKG_ALIAS = {"usermanager": "server/usermanager"}
+PKG_ALIAS = {"usermanager": "server/usermanager",
+             # package main harnesses (the real main() run in child processes): harness/cmd/<bin>/ -> /repo/cmd/<bin>/
+             "cmd/ck-server": "../cmd/ck-server", "cmd/ck-client": "../cmd/ck-client"}
 GOBIN = "go1.26.8"
 
 
